@@ -1264,3 +1264,44 @@ def runs_every_iteration(body, call_bb):
                                 return False, "an iteration can return to the loop head at %s without passing the call" % body.where(nb)
                             return True, "every iteration passes the call"
     return False, "loop shape not recognised"
+
+
+def kwarg_locals(body, name, const_of=None):
+    """user-named locals that hold the value of the keyword argument `name`: forward flow from `Kwargs::get/must_get(.., "name")` through
+    `?`, unwrap_or*, copies and the Continue payload. The keyword name is part of the documented interface, the local's name is not."""
+    def cstr(op, depth=0):
+        if op["k"] == "const":
+            return op.get("s")
+        if depth > 6 or op["k"] not in ("copy", "move"):
+            return None
+        for (b2, i2, dp, rv) in body.defs.get(op["pl"]["l"], []):
+            if dp:
+                continue
+            if rv["k"] == "use":
+                return cstr(rv["op"], depth + 1)
+            if rv["k"] == "ref":
+                return cstr({"k": "copy", "pl": {"l": rv["pl"]["l"], "p": []}}, depth + 1)
+        return None
+    S = set()
+    for bb, t in body.calls():
+        cd = callee_def(t)
+        if ("Kwargs::get" in cd or "Kwargs::must_get" in cd) and any(cstr(a) == name for a in t["args"][1:]):
+            S.add(t["dest"]["l"])
+    PASS = ("::branch", "::unwrap_or", "::unwrap_or_default", "::unwrap_or_else", "::unwrap", "::expect")
+    changed = bool(S)
+    while changed:
+        changed = False
+        for bb, idx, st in body.stmts():
+            if idx == "t":
+                if st["k"] == "call" and st["args"] and st["args"][0]["k"] in ("copy", "move") and st["args"][0]["pl"]["l"] in S \
+                        and callee_def(st).endswith(PASS) and st["dest"]["l"] not in S:
+                    S.add(st["dest"]["l"])
+                    changed = True
+                continue
+            if st.get("k") != "assign" or st["rv"]["k"] != "use":
+                continue
+            op = st["rv"]["op"]
+            if op["k"] in ("copy", "move") and op["pl"]["l"] in S and st["pl"]["l"] not in S:
+                S.add(st["pl"]["l"])
+                changed = True
+    return {l for l in S if body.local_name(l)}
